@@ -584,6 +584,30 @@ def tailstmt_compare(case, impl, model):
 
 
 # ------------------------------------------------------------------------------------------------
+# lirloop: loop-variable update emitted by the real MIR -> LIR lowering
+# ------------------------------------------------------------------------------------------------
+
+def lirloop_case(rng):
+    n = rng.range(1, 4)
+    names = [f"p{i}" for i in range(n)]
+    vals = []
+    for i in range(n):
+        k = rng.below(10)
+        vals.append(names[i] if k < 3 else (rng.pick(names) if k < 6 else (f"x{rng.range(0, 3)}" if k < 8 else str(rng.range(-2, 5)))))
+    body = " ".join(f"bin x{j} add p0 {j}" for j in range(4)) + " bin c lt p0 9 sif c 1 { brk p0 }"
+    mir = (f"fn f0 {n} while {n} " + " ".join(f"{nm} {nm}i {v}" for nm, v in zip(names, vals)) +
+           f" {{ {body} }} r ret r end").replace("p0i", "0").replace("p1i", "1").replace("p2i", "2").replace("p3i", "3")
+    return {"kind": "lirloop", "line": f"lirloop | | {mir} ## {n} " + " ".join(names) + " " + " ".join(vals)}
+
+
+def lirloop_compare(case, impl, model):
+    a, m = canon_temps(" ".join(impl.split())), canon_temps(" ".join(model.split()))
+    if not impl.startswith("vars "):
+        return f"impl={impl[:300]}", None
+    return (None if a == m else f"loop-variable update differs: impl={a[:300]} model={m[:300]}"), None
+
+
+# ------------------------------------------------------------------------------------------------
 # cpe: call graphs
 # ------------------------------------------------------------------------------------------------
 
@@ -983,7 +1007,10 @@ def e2e_tailperm(rng, probe):
         # forward-only reads: argument j reads parameter >= j
         perm = [rng.range(j, n - 1) for j in range(n)]
     adds = [rng.range(0, 3) if rng.chance(1, 2) else 0 for _ in range(n)]
-    args = [f"{ps[perm[j]]}" + (f" + {adds[j]}" if adds[j] else "") for j in range(n)]
+    # `+ 0` / `* 1` are folded by the optimizer after the rewrite: the loop values become the
+    # parameters themselves only then (C01-F4)
+    ident = [rng.pick(["", " + 0", " * 1", " - 0"]) for _ in range(n)]
+    args = [f"{ps[perm[j]]}" + (f" + {adds[j]}" if adds[j] else ident[j]) for j in range(n)]
     weights = [rng.range(1, 9) for _ in range(n)]
     ret = " + ".join(f"{ps[j]} * {weights[j]}" for j in range(n))
     init = [rng.range(1, 9) for _ in range(n)]
@@ -1271,6 +1298,36 @@ def e2e_mapset(rng):
     return {"family": "std-map-set", "src": src, "expect": exp, "std": True, "extra": "set"}
 
 
+def e2e_vecenum(rng):
+    """Vec whose elements are enum values (constant variants = i31, boxed / unboxed payloads)."""
+    xs = [rng.range(-1, 9) for _ in range(rng.range(1, 5))]     # -1 = None
+    cs = [rng.range(0, 2) for _ in range(rng.range(1, 4))]
+    mk = lambda x: "Opt.None<int>()" if x < 0 else f"Opt.Some({x})"
+    mkp = lambda x: "Opt.None<P>()" if x < 0 else f"Opt.Some(P.init({x}))"
+    col = ["Red", "Green", "Blue"]
+    st = [f"    let v = Vec.of<Opt<int>>({mk(xs[0])});", f"    let u = Vec.of<Opt<P>>({mkp(xs[0])});",
+          f"    let w = Vec.of<Color>(Color.{col[cs[0]]}());"]
+    for x in xs[1:]:
+        st += [f"    let _ = v.push({mk(x)});", f"    let _ = u.push({mkp(x)});"]
+    for c in cs[1:]:
+        st.append(f"    let _ = w.push(Color.{col[c]}());")
+    exp = []
+    for i, x in enumerate(xs):
+        st.append(f"    let _ = Process.println(Str.fromInt(Main.show(v.get({i})) * 100 + Main.showP(u.get({i}))));")
+        exp.append(str(x * 100 + x))
+    for i, c in enumerate(cs):
+        st.append(f"    let _ = Process.println(Str.fromInt(Main.code(w.get({i}))));")
+        exp.append(str(c + 1))
+    st.append("    let _ = Process.println(Str.fromInt(Main.show(v.pop()) + Main.code(w.pop())));")
+    exp.append(str(xs[-1] + cs[-1] + 1))
+    src = ("class P(val v: int) {}\nclass Opt<T>(None, Some(T)) {}\nclass Color(Red, Green, Blue) {}\nclass Main {\n"
+           "  function show(o: Opt<int>): int = match o { None -> 0 - 1, Some(x) -> x }\n"
+           "  function showP(o: Opt<P>): int = match o { None -> 0 - 1, Some(p) -> p.v }\n"
+           "  function code(c: Color): int = match c { Red -> 1, Green -> 2, Blue -> 3 }\n"
+           "  function main(): unit = {\n" + "\n".join(st) + "\n  }\n}\n")
+    return {"family": "vec-of-enum", "src": src, "expect": exp, "std": False}
+
+
 def e2e_case(rng):
     k = rng.below(100)
     if k < 14:
@@ -1292,8 +1349,10 @@ def e2e_case(rng):
         return e2e_constparam(rng)
     if k < 88:
         return e2e_iface(rng)
-    if k < 94:
+    if k < 92:
         return e2e_mapset(rng)
+    if k < 96:
+        return e2e_vecenum(rng)
     return e2e_std(rng)
 
 
@@ -1418,6 +1477,10 @@ def check_protocol_cases(ctx, cases, label, stats):
                 stats["tailstmt_snapshots"] += 1
             if "plain=true good=true" in m and " while " in a:
                 stats["tailstmt_in_theorem_shape"] += 1
+        elif c["kind"] == "lirloop":
+            tie, oracle = lirloop_compare(c, a, m)
+            if "casts _" in a:
+                stats["lirloop_snapshots"] += 1
         elif c["kind"] == "cpeprog":
             tie, oracle = cpeprog_compare(c, a, m)
             if m.startswith("ok") and any(x == "U" or x.startswith("C") for e in m.split(" ")[1].split(";")
@@ -1464,7 +1527,7 @@ PROBE_F2 = ("class Main {\n  function swap(a: int, b: int, n: int): int = if n =
 def run(ctx):
     res = common.proof_gate(ctx)
     rng = ctx.rng
-    stats = {"src_leg": {"status": "not run", "budget": ctx.scale(120, 1500)}, "search_rng": None, "layout": 0, "tailrec": 0, "cpe": 0, "cpesem": 0, "cpesem_eliminated": 0, "cpeprog": 0, "cpeprog_eliminated": 0, "tailstmt": 0, "tailstmt_rewritten": 0, "tailstmt_snapshots": 0, "tailstmt_in_theorem_shape": 0, "e2e": 0, "e2e_ok": 0, "known_hits": 0, "families": {},
+    stats = {"src_leg": {"status": "not run", "budget": ctx.scale(120, 1500)}, "search_rng": None, "layout": 0, "tailrec": 0, "cpe": 0, "cpesem": 0, "cpesem_eliminated": 0, "cpeprog": 0, "cpeprog_eliminated": 0, "lirloop": 0, "lirloop_snapshots": 0, "tailstmt": 0, "tailstmt_rewritten": 0, "tailstmt_snapshots": 0, "tailstmt_in_theorem_shape": 0, "e2e": 0, "e2e_ok": 0, "known_hits": 0, "families": {},
              "layout_unboxed": 0, "layout_conflating": 0, "tailrec_rewritten": 0, "no_node": False}
     try:
         common.build_exec()
@@ -1488,6 +1551,7 @@ def run(ctx):
     cases += [cpesem_case(rng.fork()) for _ in range(n_cpe)]
     cases += [tailstmt_case(rng.fork()) for _ in range(n_tail)]
     cases += [cpeprog_case(rng.fork()) for _ in range(n_cpe)]
+    cases += [lirloop_case(rng.fork()) for _ in range(n_layout)]
     for i in range(0, len(cases), 400):
         check_protocol_cases(ctx, cases[i:i + 400], f"generated seed={ctx.seed}", stats)
         if ctx.violations:
@@ -1505,7 +1569,7 @@ def run(ctx):
             run_e2e(ctx, e2e[i:i + 60], f"generated seed={ctx.seed}", stats)
             if ctx.violations:
                 break
-    total = stats["layout"] + stats["tailrec"] + stats["cpe"] + stats["cpesem"] + stats["cpeprog"] + stats["tailstmt"] + stats["e2e"]
+    total = stats["layout"] + stats["tailrec"] + stats["cpe"] + stats["cpesem"] + stats["cpeprog"] + stats["tailstmt"] + stats["lirloop"] + stats["e2e"]
     ctx.cov.update({
         "evaluations": total,
         "distinct_nontrivial": stats["layout_unboxed"] + stats["tailrec_rewritten"] + stats["e2e_ok"],
@@ -1516,7 +1580,7 @@ def run(ctx):
                 "non-trivial = layout case with at least one Unboxed variant + tailrec case that was rewritten into a loop + "
                 "e2e program whose wasm output matched",
         "samples": [cases[0]["line"][:300] if cases else "", cases[n_layout]["line"][:300] if len(cases) > n_layout else ""],
-        "traces_validated_against_impl": stats["layout"] + stats["tailrec"] + stats["cpe"] + stats["cpesem"] + stats["cpeprog"] + stats["tailstmt"],
+        "traces_validated_against_impl": stats["layout"] + stats["tailrec"] + stats["cpe"] + stats["cpesem"] + stats["cpeprog"] + stats["tailstmt"] + stats["lirloop"],
         "histogram": {k: v for k, v in stats.items() if k != "search_rng"},
         "pending": ["K3b fragment lacks non-self calls / memory statements as non-tail statements; single-assignment "
                     "well-formedness behind the iteration-state abstraction is assumed, not proved",
